@@ -66,6 +66,9 @@ FORMS = {
     "map_set": "list(set(m))",
     "map_str": "string(m)",
     "list_min": "min(l)", "list_max": "max(l)",
+    # through a key function: the element is wrapped, the key unwraps it
+    "list_min_key": "min([[x, 'w'] for x in l], key = fn(p) p[0])[0]",
+    "list_max_key": "max([[x, 'w'] for x in l], key = fn(p) p[0])[0]",
 }
 _F = {}
 
@@ -295,7 +298,9 @@ def explore_enum(chunk):
         if subset:
             for perm in itertools.permutations(subset):
                 for name, pick in (("list_min", exp[0]),
-                                   ("list_max", exp[-1])):
+                                   ("list_max", exp[-1]),
+                                   ("list_min_key", exp[0]),
+                                   ("list_max_key", exp[-1])):
                     r = f.ev(name, l=core.to_value(list(perm)))
                     agg.count("steps")
                     if not (r[0] == "value" and
